@@ -122,9 +122,6 @@ Qed.
 (* ================================================================================================ *)
 (* the declarative reading of a sequence of rows                                                    *)
 
-(* every declaration of the name n among the rows *)
-Definition rows_of (n : str) (rows : list vchild) : list vchild :=
-  filter (fun vc => streqb (vc_name vc) n) rows.
 Definition min_total (rs : list vchild) : Z := fold_right (fun vc a => (vc_mn vc + a)%Z) 0%Z rs.
 (* None = unbounded *)
 Definition max_total (rs : list vchild) : option Z :=
@@ -138,23 +135,6 @@ Definition in_card (cnt : nat) (rs : list vchild) : Prop :=
   (min_total rs <= Z.of_nat cnt)%Z /\
   match max_total rs with None => True | Some m => (Z.of_nat cnt <= m)%Z end.
 
-Lemma rows_of_nodup rows vc :
-  NoDup (map vc_name rows) -> In vc rows -> rows_of (vc_name vc) rows = [vc].
-Proof.
-  induction rows as [|r rows IH]; intros ND Hin; [destruct Hin|].
-  simpl in ND. inversion ND as [|? ? Hnot ND']; subst.
-  simpl. destruct Hin as [->|Hin].
-  - rewrite streqb_refl. f_equal.
-    assert (H : forall l, ~ In (vc_name vc) (map vc_name l) -> rows_of (vc_name vc) l = []).
-    { induction l as [|a l IHl]; simpl; intros Hn; [reflexivity|].
-      destruct (streqb_spec (vc_name a) (vc_name vc)) as [E|N]; [exfalso; apply Hn; now left|].
-      apply IHl. intros H; apply Hn; now right. }
-    now apply H.
-  - destruct (streqb_spec (vc_name r) (vc_name vc)) as [E|N].
-    + exfalso. apply Hnot. rewrite E. now apply in_map.
-    + now apply IH.
-Qed.
-
 Lemma in_card_single cnt vc :
   in_card cnt [vc] <-> (vc_mn vc <= Z.of_nat cnt)%Z /\ (vc_mx vc = -1 \/ Z.of_nat cnt <= vc_mx vc)%Z.
 Proof.
@@ -162,6 +142,79 @@ Proof.
   destruct (Z.eqb_spec (vc_mx vc) (-1)) as [E|N].
   - split; intros [H1 H2]; (split; [lia|]); [now left | trivial].
   - split; intros [H1 H2]; (split; [lia|]); [right; lia | destruct H2; [contradiction|lia]].
+Qed.
+
+(* the validator's test of one declaration against the number of children of its name *)
+Definition row_check (cnt : nat) (d : vchild) : Prop :=
+  (vc_mn d <= Z.of_nat cnt)%Z /\ (vc_mx d = -1 \/ Z.of_nat cnt <= vc_mx d)%Z.
+
+Lemma rows_of_In n rows d : In d (rows_of n rows) <-> In d rows /\ vc_name d = n.
+Proof.
+  unfold rows_of. rewrite filter_In. split; intros [H1 H2]; (split; [exact H1|]).
+  - now apply streqb_eq. - subst. apply streqb_refl.
+Qed.
+
+Lemma min_total_ge ds : (forall d, In d ds -> 0 <= vc_mn d)%Z -> forall d, In d ds -> (vc_mn d <= min_total ds)%Z.
+Proof.
+  induction ds as [|a ds IH]; intros H0 d Hd; [destruct Hd|]. cbn [min_total fold_right].
+  assert (0 <= min_total ds)%Z.
+  { clear IH Hd. induction ds as [|b ds IH']; cbn [min_total fold_right]; [lia|].
+    assert (0 <= vc_mn b)%Z by (apply H0; right; now left).
+    assert (0 <= min_total ds)%Z by (apply IH'; intros x Hx; apply H0; destruct Hx as [->|Hx]; [now left | right; now right]).
+    unfold min_total in *. lia. }
+  destruct Hd as [->|Hd].
+  - unfold min_total in *. lia.
+  - assert (vc_mn d <= min_total ds)%Z by (apply IH; [intros x Hx; apply H0; now right | exact Hd]).
+    assert (0 <= vc_mn a)%Z by (apply H0; now left). unfold min_total in *. lia.
+Qed.
+
+Lemma min_total_zero ds : filter (fun d => negb (vc_mn d =? 0)%Z) ds = [] -> min_total ds = 0%Z.
+Proof.
+  induction ds as [|a ds IH]; cbn [filter min_total fold_right]; [reflexivity|].
+  destruct (Z.eqb_spec (vc_mn a) 0) as [E|N]; cbn [negb]; [|discriminate].
+  intros H. rewrite E. unfold min_total in IH. rewrite (IH H). reflexivity.
+Qed.
+
+Lemma min_total_le ds c :
+  (length (filter (fun d => negb (vc_mn d =? 0)%Z) ds) <= 1)%nat ->
+  (forall d, In d ds -> vc_mn d <= c)%Z -> (0 <= c)%Z -> (min_total ds <= c)%Z.
+Proof.
+  induction ds as [|a ds IH]; intros HL HA Hc; cbn [min_total fold_right]; [exact Hc|].
+  cbn [filter] in HL. destruct (Z.eqb_spec (vc_mn a) 0) as [E|N]; cbn [negb] in HL.
+  - rewrite E. cbn. apply IH; [exact HL | intros d Hd; apply HA; now right | exact Hc].
+  - cbn [length] in HL. assert (HF : filter (fun d => negb (vc_mn d =? 0)%Z) ds = []).
+    { destruct (filter _ ds); [reflexivity | cbn [length] in HL; lia]. }
+    fold (min_total ds). rewrite (min_total_zero ds HF). assert (vc_mn a <= c)%Z by (apply HA; now left). lia.
+Qed.
+
+Lemma max_total_open ds : ds <> [] -> (forall d, In d ds -> vc_mx d = (-1)%Z) -> max_total ds = None.
+Proof.
+  destruct ds as [|a ds]; [congruence|]. intros _ H. cbn [max_total fold_right].
+  destruct (fold_right _ _ ds); [|reflexivity]. rewrite (H a (or_introl eq_refl)). reflexivity.
+Qed.
+
+(* for the declarations ds of one name, when decl_ok holds: the per-declaration tests agree with
+   the declarations taken together *)
+Lemma decl_ok_card rows vc cnt :
+  In vc rows -> decl_ok rows vc = true ->
+  (forall d, In d (rows_of (vc_name vc) rows) -> row_check cnt d) <->
+  in_card cnt (rows_of (vc_name vc) rows).
+Proof.
+  intros Hin. unfold decl_ok.
+  assert (Hvc : In vc (rows_of (vc_name vc) rows)) by (apply rows_of_In; now split).
+  destruct (rows_of (vc_name vc) rows) as [|a [|b ds]] eqn:E; [destruct Hvc| |].
+  - intros _. rewrite in_card_single. unfold row_check. split.
+    + intros H. apply H. now left.
+    + intros H d [<-|[]]. exact H.
+  - rewrite andb_true_iff, forallb_forall, Nat.leb_le. intros [HO HL].
+    assert (HM : forall d, In d (a :: b :: ds) -> vc_mx d = (-1)%Z /\ (0 <= vc_mn d)%Z).
+    { intros d Hd. specialize (HO d Hd). apply andb_true_iff in HO. destruct HO as [H1 H2].
+      split; [now apply Z.eqb_eq | now apply Z.leb_le]. }
+    unfold in_card. rewrite (max_total_open (a :: b :: ds)); [|discriminate | intros d Hd; now apply HM].
+    split.
+    + intros H. split; [|trivial]. apply min_total_le; [exact HL | intros d Hd; now apply H | lia].
+    + intros [H _] d Hd. split; [|left; now apply HM].
+      assert (vc_mn d <= min_total (a :: b :: ds))%Z by (apply min_total_ge; [intros x Hx; now apply HM | exact Hd]). lia.
 Qed.
 
 Section SeqSpec.
@@ -275,7 +328,7 @@ Qed.
    duplicate names, when the element resolves its declared names, and given the same statement for
    each child against the reference it is validated with *)
 Lemma clean_check_seq rows kids :
-  NoDup (map vc_name rows) ->
+  dups_ok rows = true ->
   resolves rows ->
   (forall vc k, In vc rows -> In k kids -> nm k = Some (vc_name vc) ->
      (clean (vkid (Some (vc_ref vc)) k) <-> conf (Some (vc_ref vc)) k)) ->
@@ -288,15 +341,21 @@ Proof.
   assert (C1 : clean R1 <-> forall vc, In vc rows ->
                  in_card (length (named_kids nm kids (vc_name vc))) (rows_of (vc_name vc) rows) /\
                  (forall k, In k kids -> nm k = Some (vc_name vc) -> conf (Some (vc_ref vc)) k)).
-  { unfold R1. rewrite clean_seq_res, map_map, Forall_forall. split.
-    - intros H vc Hvc. specialize (H _ (in_map _ _ _ Hvc)). cbn beta in H.
-      apply clean_check_row in H; [|now apply RS]. destruct H as [Hc Hk].
-      rewrite (rows_of_nodup _ _ ND Hvc), in_card_single. split; [exact Hc|].
-      intros k Hin Hn. apply (IHk vc k Hvc Hin Hn). now apply Hk.
-    - intros H r Hr. apply in_map_iff in Hr. destruct Hr as [vc [<- Hvc]].
-      apply clean_check_row; [now apply RS|]. destruct (H vc Hvc) as [Hc Hk].
-      rewrite (rows_of_nodup _ _ ND Hvc), in_card_single in Hc. split; [exact Hc|].
-      intros k Hin Hn. apply (IHk vc k Hvc Hin Hn). now apply Hk. }
+  { unfold R1. rewrite clean_seq_res, map_map, Forall_forall.
+    assert (RC : forall vc, In vc rows ->
+              (clean (check_row nm resolve vkid pname kids (Some vc)) <->
+               row_check (length (named_kids nm kids (vc_name vc))) vc /\
+               (forall k, In k kids -> nm k = Some (vc_name vc) -> conf (Some (vc_ref vc)) k))).
+    { intros vc Hvc. rewrite (clean_check_row kids vc (RS vc Hvc)). unfold row_check.
+      split; intros [Hc Hk]; (split; [exact Hc|]); intros k Hin Hn; apply (IHk vc k Hvc Hin Hn); now apply Hk. }
+    unfold dups_ok in ND. rewrite forallb_forall in ND. split.
+    - intros H vc Hvc. split.
+      + apply (decl_ok_card rows vc _ Hvc (ND vc Hvc)). intros d Hd. apply rows_of_In in Hd. destruct Hd as [Hd En].
+        specialize (H _ (in_map _ _ _ Hd)). cbn beta in H. apply (RC d Hd) in H. destruct H as [H _]. now rewrite En in H.
+      + specialize (H _ (in_map _ _ _ Hvc)). cbn beta in H. now apply (RC vc Hvc) in H.
+    - intros H r Hr. apply in_map_iff in Hr. destruct Hr as [vc [<- Hvc]]. apply (RC vc Hvc).
+      destruct (H vc Hvc) as [Hc Hk]. split; [|exact Hk].
+      apply (proj2 (decl_ok_card rows vc _ Hvc (ND vc Hvc)) Hc). apply rows_of_In; now split. }
   assert (C2 : clean R2 <-> forall k, In k kids -> isz k = true -> conf None k).
   { unfold R2. rewrite clean_seq_res, forall_cond_map.
     split; intros H k Hk Hz; apply (IHz k Hk Hz); now apply H. }
@@ -408,13 +467,13 @@ Qed.
 
 Lemma rows_linked_spec {A} resolve (nm : A -> option str) isz lk kids rows :
   rows_linked resolve nm isz lk kids rows = true ->
-  exists rows', rows = map Some rows' /\ NoDup (map vc_name rows') /\ resolves resolve rows' /\
+  exists rows', rows = map Some rows' /\ dups_ok rows' = true /\ resolves resolve rows' /\
     (forall vc k, In vc rows' -> In k kids -> nm k = Some (vc_name vc) -> lk (Some (vc_ref vc)) k = true) /\
     (forall k, In k kids -> isz k = true -> lk None k = true).
 Proof.
   unfold rows_linked. destruct (all_some rows) as [rows'|] eqn:E; [|discriminate].
   rewrite !andb_true_iff, !forallb_forall. intros [[ND HR] HZ].
-  exists rows'. split; [now apply all_some_map|]. split; [now apply nodupb_NoDup|]. split; [|split].
+  exists rows'. split; [now apply all_some_map|]. split; [exact ND|]. split; [|split].
   - intros vc Hvc. specialize (HR vc Hvc). apply andb_true_iff in HR. destruct HR as [HR _].
     now apply opt_eqb_true in HR.
   - intros vc k Hvc Hk Hn. specialize (HR vc Hvc). apply andb_true_iff in HR. destruct HR as [_ HR].
@@ -542,7 +601,7 @@ Definition conf_field (ref : option sref) (f : field) : Prop :=
     end.
 
 Lemma clean_field_seq f rows' :
-  NoDup (map vc_name rows') -> resolves (resolve_field t f) rows' ->
+  dups_ok rows' = true -> resolves (resolve_field t f) rows' ->
   (forall vc k, In vc rows' -> In k (f_children f) -> c_name k = Some (vc_name vc) -> linked_comp t (Some (vc_ref vc)) k = true) ->
   clean (field_seq t e f (map Some rows')) <-> conf_children c_name (fun _ => false) conf_comp rows' (f_children f).
 Proof.
